@@ -72,7 +72,10 @@ def gen_wire():
           "def timeoutErrnos : List Nat := " + lean_list([str(e) for e in tm], 16)]
     L += ["", "/-- `errno.EBADF` (the one errno `SocketStream.fileno` turns into EOFError) and `errno.EINTR` (the one",
           "select error `Stream.poll` retries on) -/",
-          "def ebadf : Nat := %d" % errno.EBADF, "def eintr : Nat := %d" % errno.EINTR]
+          "def ebadf : Nat := %d" % errno.EBADF, "def eintr : Nat := %d" % errno.EINTR,
+          "", "/-- `errno.EAGAIN`, `errno.EWOULDBLOCK` of this platform, from the `errno` module - NOT from rpyc's own",
+          "`retry_errnos`: the would-block clause of C05 is stated with these, and `retry_errnos` must contain them -/",
+          "def eagain : Nat := %d" % errno.EAGAIN, "def ewouldblock : Nat := %d" % errno.EWOULDBLOCK]
     # are timeout / would-block exceptions `socket.error`s (so that `write` treats them as fatal) and
     # EnvironmentErrors (so that PipeStream treats them as fatal)
     facts = dict(
